@@ -347,6 +347,7 @@ VARIANT_TEXT = {
     "memoryview": "with its bytes arguments passed as memoryview objects",
     "reuse": "with ONE caller-owned bytearray per argument, refilled in place before each call",
     "reuselist": "with ONE caller-owned list per argument, refilled in place before each call",
+    "deep": "called from 800 frames deep in the caller's stack (default recursion limit 1000)",
 }
 
 
@@ -744,6 +745,23 @@ def run_check(prop_id, tier="quick", seed=0, replay=None):
                     c2 = dict(c, cls=c["cls"] + "@" + kind, variant=kind)
                     disagreements.append((c2, ir1, ("ok", ir0[1]) if ir0[0] == "ok" else ("err", ir0[1])))
             stats["extra"][kind + "_variants"] = nv
+        # ... and from a deep call stack (800 frames below, default recursion limit): a sample of accepted cases of
+        # every op, unless a property opts out (DEEP_STACK_OK = False for code that legitimately recurses on its input)
+        if getattr(prop, "DEEP_STACK_OK", True):
+            nv = 0
+            byop = {}
+            for x in mixed_candidates(lambda c: True):
+                if x[1][0] == "ok" and len(byop.setdefault(x[0]["op"], [])) < (12 if tier == "thorough" else 5):
+                    byop[x[0]["op"]].append(x)
+            for (c, ir0) in [x for v in byop.values() for x in v]:
+                ir1 = impl.call(c["op"] + "@deep", c["args"], timeout=c.get("timeout"))
+                if canon and ir1[0] == "ok":
+                    ir1 = ("ok", canon(c, ir1[1]))
+                nv += 1
+                if not ((ir0[0] == ir1[0]) and (norm(ir0[1]) == norm(ir1[1]) if ir0[0] == "ok" else True)):
+                    c2 = dict(c, cls=c["cls"] + "@deep", variant="deep")
+                    disagreements.append((c2, ir1, ("ok", ir0[1]) if ir0[0] == "ok" else ("err", ir0[1])))
+            stats["extra"]["deep_stack_variants"] = nv
         # ... and with ONE caller-owned buffer / list per argument position, refilled in place before every call:
         # whatever the library remembered about the object itself (identity- or reference-keyed caches) is stale by the
         # next call, and an argument the call modifies in place shows up as well.  Buffers: ops of BYTEARRAY_OPS;
